@@ -128,7 +128,8 @@ class ElfPrims:
                     else:
                         outs.append((A.UNIT, p))
                 return outs
-        if short == "into_iter" or (short == "iter" and name.startswith("elf::")):
+        if (short == "into_iter" or (short == "iter" and name.startswith("elf::"))) and args and \
+                I._deref_all(path, args[0])[0] not in ("citer",) and not (I._deref_all(path, args[0])[0] == "agg" and I._deref_all(path, args[0])[1] == "array"):
             v = args[0]
             return [(("iter", I._deref_all(path, v)), path)]
         if short == "next" and "ParsingIterator" in name:
